@@ -11,6 +11,8 @@ CONSTANTS
   SwTestResetsMsg = TRUE
   SwCoerceResetsMsg = TRUE
   SwCollectOncePerIssue = TRUE
+  SwPoolNewFresh = TRUE
+  SwFrontEndIssueFresh = TRUE
 INIT Init
 NEXT Next
 VIEW View
